@@ -1265,7 +1265,16 @@ impl NamingActor {
             NamingRaftReq::RemoveInstance(instance_key) => {
                 let service_key = instance_key.get_service_key();
                 let instance_short_key = instance_key.get_short_key();
-                self.remove_instance(&service_key, &instance_short_key, None);
+                // the entry takes the address out of the replicated (permanent) set; an instance that is
+                // ephemeral by now (re-registering the address as ephemeral is what produced this entry)
+                // is not replicated state and must stay registered
+                let is_ephemeral_now = self
+                    .get_instance(&service_key, &instance_short_key)
+                    .map(|i| i.ephemeral)
+                    .unwrap_or(false);
+                if !is_ephemeral_now {
+                    self.remove_instance(&service_key, &instance_short_key, None);
+                }
                 Ok(NamingRaftResult::None)
             }
         }
